@@ -94,6 +94,9 @@ func genAuthCfg(r *rand.Rand) vfCfg {
 		c.CliTokenLife = pick(r, []string{"1h", "30m", "24h"})
 	}
 	c.GroupsLDAP = chance(r, 0.5)
+	if chance(r, 0.25) {
+		c.DenyKeys = subset(r, []string{"user_p256_1", "user_rsa2048_2", "user_ed25519_3"}, 0.6)
+	}
 	if chance(r, 0.15) {
 		// passwords and second factors checked by (simulated) Okta through the real Okta authenticator
 		c.PwBackend = "okta"
@@ -160,6 +163,24 @@ func genAuthPlan(r *rand.Rand, tier, focus string) *vfPlan {
 		add(vfStep{Op: "advance", D: pick(r, []string{"1h", "12h", "20h", "23h"})})
 		add(vfStep{Op: "certgen", Sess: "s3", User: u, A: pick(r, []string{"ssh", "x509", "x509"}), B: pick(r, vfUserKeyNames), D: pick(r, []string{"", "24h", "8h"}), C: "cert:last:usercert:" + u})
 	}
+	if focus == "C05" && p.Cfg.DisableNorm && chance(r, 0.3) {
+		// two accounts that differ only in case: the lower-case one holds a client certificate and its own second
+		// factor, and a password-level session of the other one
+		u := pick(r, vfHonestUsers)
+		twin := strings.ToUpper(u[:1]) + u[1:]
+		if !enrolledTOTP[u] {
+			add(vfStep{Op: "setup_totp", User: u})
+			enrolledTOTP[u] = true
+		}
+		add(vfStep{Op: "advance", D: "31s"})
+		add(vfStep{Op: "mintsession", Sess: "s3", User: twin, N: int64(AuthTypePassword)})
+		sessUser["s3"] = twin
+		add(vfStep{Op: "mintsession", Sess: "cs", User: u, N: int64(AuthTypeU2F | AuthTypePassword)})
+		add(vfStep{Op: "certgen", Sess: "cs", User: u, A: "x509", B: "user_p256_1", D: "8h"})
+		add(vfStep{Op: "attachcert", Sess: "s3", C: "last:usercert:" + u})
+		add(vfStep{Op: pick(r, []string{"totp", "vipotp"}), Sess: "s3", A: "other:" + u})
+		add(vfStep{Op: "certgen", Sess: "s3", User: "@jar", A: "x509", B: "user_p256_2"})
+	}
 	mintShare := 0.25
 	ipcertShare := 2
 	if focus == "C01" {
@@ -210,9 +231,14 @@ func genAuthPlan(r *rand.Rand, tier, focus string) *vfPlan {
 			if chance(r, 0.3) {
 				bits = pick(r, []int{AuthTypePassword, AuthTypePassword | AuthTypeBootstrapOTP, AuthTypePassword | AuthTypeTOTP, AuthTypeFederated, AuthTypeWebauthForCLI, AuthTypeKeymasterX509, AuthTypeFIDO2, AuthTypePassword | AuthTypeOkta2FA, 0})
 			}
+			if p.Cfg.DisableNorm && chance(r, 0.35) {
+				nu = strings.ToUpper(nu[:1]) + nu[1:] // without normalisation "Bob" is an account of its own
+			}
 			ms := vfStep{Op: "mintsession", Sess: s, User: nu, N: int64(bits), D: pick(r, []string{"16h", "16h", "1h", "10m", "45s", "15h"})}
 			if chance(r, 0.08) {
 				ms.A = "notyet:" + pick(r, []string{"30s", "10m", "2h"})
+			} else if chance(r, 0.06) {
+				ms.A = fmt.Sprintf("iss:%d", r.IntN(4))
 			}
 			add(ms)
 			sessUser[s] = nu
@@ -258,6 +284,9 @@ func genAuthPlan(r *rand.Rand, tier, focus string) *vfPlan {
 				add(vfStep{Op: "vipotp", Sess: s, A: a})
 			case 3:
 				add(vfStep{Op: "pushstart", Sess: s})
+				if chance(r, 0.15) {
+					add(vfStep{Op: "advance", D: pick(r, []string{"61s", "119s", "121s", "3m", "10m"})})
+				}
 				if chance(r, 0.7) {
 					add(vfStep{Op: pick(r, []string{"approve", "approve", "deny"}), User: pick(r, vfHonestUsers)})
 				}
@@ -276,6 +305,9 @@ func genAuthPlan(r *rand.Rand, tier, focus string) *vfPlan {
 				if chance(r, 0.5) {
 					// the WebAuthn endpoints (U2F-compatible branch)
 					add(vfStep{Op: "webauthn_begin", Sess: s})
+					if chance(r, 0.2) {
+						add(vfStep{Op: "advance", D: pick(r, []string{"29s", "61s", "2m", "5m", "10m"})})
+					}
 					if chance(r, 0.85) {
 						tok := anyTok()
 						if l := enrolledU2F[u]; len(l) > 0 && chance(r, 0.7) {
@@ -308,6 +340,10 @@ func genAuthPlan(r *rand.Rand, tier, focus string) *vfPlan {
 					break
 				}
 				add(vfStep{Op: "u2fsignreq", Sess: s})
+				if chance(r, 0.2) {
+					// the user is slow: the challenge may have lapsed (and been swept) by the time the token answers
+					add(vfStep{Op: "advance", D: pick(r, []string{"29s", "61s", "2m", "5m", "10m"})})
+				}
 				if chance(r, 0.85) {
 					tok := anyTok()
 					if l := enrolledU2F[u]; len(l) > 0 && chance(r, 0.7) {
@@ -440,7 +476,14 @@ func genAuthPlan(r *rand.Rand, tier, focus string) *vfPlan {
 			add(vfStep{Op: "mintsession", Sess: "cs", User: cu, N: int64(AuthTypeU2F | AuthTypePassword)})
 			add(vfStep{Op: "certgen", Sess: "cs", User: cu, A: "x509", B: pick(r, []string{"user_p256_1", "user_rsa2048_2"}), D: "8h"})
 			if chance(r, 0.8) {
-				add(vfStep{Op: "attachcert", Sess: pick(r, vfSessNames), C: "last:usercert:" + cu})
+				// attached to some session: preferably one of the same user, or of the account that differs only in case
+				at := pick(r, vfSessNames)
+				for _, cand := range vfSessNames {
+					if strings.EqualFold(sessUser[cand], cu) && chance(r, 0.6) {
+						at = cand
+					}
+				}
+				add(vfStep{Op: "attachcert", Sess: at, C: "last:usercert:" + cu})
 			}
 		case x < 81:
 			// an automation certificate minted by an administrator, later used as a credential
